@@ -116,10 +116,32 @@ pub fn run_listing(listing: usize, n: usize, limits: &[Option<u32>]) -> Vec<Case
                     push(*l, all(n), all(n), pages);
                 }
             } else {
+                // by-spender listing.  Every third owner's allowance is drawn down to exactly zero (the record stays),
+                // and for odd n the token is a pre-0.14 one migrated just before the walk (the by-spender index is rebuilt)
                 let spender = accts[0].clone();
                 let ow = addrs(&app, "owner", n);
+                let creator = app.api().addr_make("creator");
+                let lcode = crate::cw20::legacy_capable_code(&mut app);
+                let msg = cw20_base::msg::InstantiateMsg {
+                    name: "token".into(),
+                    symbol: "TOK".into(),
+                    decimals: 6,
+                    initial_balances: ow.iter().map(|a| Cw20Coin { address: a.to_string(), amount: Uint128::new(5) }).collect(),
+                    mint: None,
+                    marketing: None,
+                };
+                let tok = app.instantiate_contract(lcode, creator.clone(), &msg, &[], "tok2", Some(creator.to_string())).unwrap();
                 for o in &ow {
                     app.execute_contract(o.clone(), tok.clone(), &Cw20ExecuteMsg::IncreaseAllowance { spender: spender.to_string(), amount: Uint128::new(3), expires: None }, &[]).unwrap();
+                }
+                for (i, o) in ow.iter().enumerate() {
+                    if i % 3 == 0 {
+                        app.execute_contract(spender.clone(), tok.clone(), &Cw20ExecuteMsg::TransferFrom { owner: o.to_string(), recipient: spender.to_string(), amount: Uint128::new(3) }, &[]).unwrap();
+                    }
+                }
+                if n % 2 == 1 {
+                    app.wasm_sudo(tok.clone(), &crate::cw20::SudoMsg::Legacy {}).unwrap();
+                    app.migrate_contract(creator.clone(), tok.clone(), &cw20_base::msg::MigrateMsg {}, lcode).unwrap();
                 }
                 let idx = index_of(&ow);
                 for l in limits {
